@@ -18,3 +18,26 @@ macro_rules! info { ($($t:tt)*) => {{}}; }
 macro_rules! warn { ($($t:tt)*) => {{}}; }
 #[macro_export]
 macro_rules! error { ($($t:tt)*) => {{}}; }
+
+/// `tracing::Span` as used by concurrency/src/scope/mod.rs (`Span::current()`, `span.enter()`): no-ops.
+pub struct Span;
+/// Guard returned by `Span::enter`.
+pub struct Entered;
+impl Span {
+    pub fn current() -> Span {
+        Span
+    }
+    pub fn enter(&self) -> Entered {
+        Entered
+    }
+}
+/// `tracing::Instrument`: returns the future unchanged.
+pub trait Instrument: Sized {
+    fn in_current_span(self) -> Self {
+        self
+    }
+    fn instrument(self, _span: Span) -> Self {
+        self
+    }
+}
+impl<T: Sized> Instrument for T {}
